@@ -780,6 +780,18 @@ def _ref_templated(subs, arg, val):
         subs[arg[1]] = m
         return True
     if val == ANY:
+        # nothing is known about the argument: every template parameter inside the declared type that is not deduced yet is instantiated
+        # by the unknown type (otherwise it stays un-instantiated in the result type of the call)
+        def bind(t):
+            if t[0] == 'e':
+                if t[1].startswith('R') and t[1] != 'R0' and t[1] not in subs:
+                    subs[t[1]] = ANY
+            elif t[0] == 'b':
+                bind(t[1])
+            else:
+                for x in t[1]:
+                    bind(x)
+        bind(arg)
         return True
     if arg[0] != val[0]:
         return False
@@ -827,6 +839,19 @@ def type_hooks(db):
                 a, b = (it.eval(fn, S[x], env) for x in n['args'][:2])
                 if isinstance(a, Obj) and a.get('__kind__') == 'typ' and isinstance(b, Obj):
                     return (a['v'] == b['v']) == (n['op'] == '==')
+            if last in ('ConstVisit', 'Visit') and 'obj' in n and n.get('args'):
+                o = obj()
+                vis = it.eval(fn, S[n['args'][0]], env)
+                if isinstance(o, Obj) and o.get('__kind__') == 'typ':
+                    def walk(t):
+                        it.call_lambda(vis, [T(t)])
+                        if t[0] == 'b':
+                            walk(t[1])
+                        elif t[0] == 't':
+                            for c_ in t[1]:
+                                walk(c_)
+                    walk(o['v'])
+                    return None
             if last == 'Integer':
                 return T(ZT)
             if last == 'Tuple':
